@@ -12,4 +12,10 @@ CHECKS = {
         "conserves the pools and fails creation iff no slot is free or both times are zero; every edge of that state graph plus a drain probe, and random walks with pool 4, "
         "are replayed on the real co_tmr.c and compared step by step (return classes, set of fired callbacks, free slots); the tick conversion is checked exact and monotonic over all 65536 times for 8 frequencies in the spec and compared with COTmrGetTicks on ~10^4 exact cases.",
    note=MC_NOTE, technique="TLA+/TLC model checking + TLC-generated behaviours replayed against the C code", ref="DESIGN.md section 8, C07"),
+ "C08": dict(
+   text="TLC checks an interleaving model in which the tick interrupt may fire between any two lock-delimited sub-steps of COTmrProcess (pop / act / callback) and around create/delete: pool conservation incl. the chain held by a running Process, "
+        "no callback without an owed expiry, none after a confirmed delete, nothing owed when Process returns, delete of an elapsed-unprocessed action succeeds. The same sub-step function, folded over explicit injection schedules, "
+        "generates behaviours (edge cover + walks) that the harness realises by calling COTmrService from inside its COTmrLock/COTmrUnlock callbacks; fired callbacks, service results, return values and pool conservation are compared in order.",
+   note=MC_NOTE + " Preemption is modelled at lock boundaries only (critical sections assumed atomic w.r.t. the interrupt).",
+   technique="TLA+/TLC interleaving model + TLC-generated injection schedules replayed against the C code", ref="DESIGN.md section 8, C08"),
 }
